@@ -31,6 +31,7 @@ type c12Tree struct {
 	Runner    string `json:"runner"`
 	Tree      string `json:"tree"` // cprobe tree spec
 	Nodes     int    `json:"nodes"`
+	End       string `json:"end"` // exit | cancel | syncfail
 	RootFirst bool   `json:"rootfirst"`
 }
 
@@ -94,6 +95,22 @@ func c12TreeMain(args []string) error {
 	for _, c := range cases {
 		o := c12TreeObs{c12Tree: c}
 		nonce := fmt.Sprintf("vqc12x%dx%d", os.Getpid(), c.ID)
+		c.RootFirst = c.End == "exit"
+		o.c12Tree = c
+		// the caller's sync callback: accepts, or (end = syncfail) refuses the run once the tree is up
+		// (sync before exec: the program has not started, there is nothing to wait for)
+		syncFunc := func(pid int) error { return nil }
+		if c.End == "syncfail" {
+			syncFunc = func(pid int) error {
+				if c.Runner == "container-sa" {
+					dl := time.Now().Add(2 * time.Second)
+					for time.Now().Before(dl) && len(scanNonce(nonce)) < c.Nodes {
+						time.Sleep(2 * time.Millisecond)
+					}
+				}
+				return fmt.Errorf("refused by the caller")
+			}
+		}
 		// the program: build the tree, then end at once or linger until the run is cancelled
 		prog := []string{"PROBE", nonce, "tree:" + c.Tree}
 		if c.RootFirst {
@@ -107,7 +124,7 @@ func c12TreeMain(args []string) error {
 		case "ptrace":
 			prog[0] = args[0]
 			r := &ptrace.Runner{Args: prog, Env: []string{"PATH=/usr/bin:/bin"}, Files: nullFiles(), Seccomp: allowAllFilter(),
-				Handler: allowAll{}, Limit: runner.Limit{TimeLimit: 200 * time.Second, MemoryLimit: runner.Size(2 << 30)}}
+				Handler: allowAll{}, Limit: runner.Limit{TimeLimit: 200 * time.Second, MemoryLimit: runner.Size(2 << 30)}, SyncFunc: syncFunc}
 			run = func() opResult { return classify(r.Run(ctx)) }
 		case "unshare":
 			prog[0] = "/probe/cprobe"
@@ -120,7 +137,7 @@ func c12TreeMain(args []string) error {
 			}
 			r := &unshare.Runner{Args: prog, Env: []string{"PATH=/usr/bin:/bin"}, Files: nullFiles(), WorkDir: "/w",
 				Seccomp: allowAllFilter(), Root: root, Mounts: m, HostName: "verif", DomainName: "verif",
-				Limit: runner.Limit{TimeLimit: 200 * time.Second, MemoryLimit: runner.Size(2 << 30)}}
+				Limit: runner.Limit{TimeLimit: 200 * time.Second, MemoryLimit: runner.Size(2 << 30)}, SyncFunc: syncFunc}
 			run = func() opResult { return classify(r.Run(ctx)) }
 		default:
 			prog[0] = "/probe/cprobe"
@@ -138,7 +155,7 @@ func c12TreeMain(args []string) error {
 				}
 				sess = s
 			}
-			p := container.ExecveParam{Args: prog, Env: []string{"PATH=/usr/bin:/bin"}, Files: nullFiles(), SyncAfterExec: c.Runner == "container-sa"}
+			p := container.ExecveParam{Args: prog, Env: []string{"PATH=/usr/bin:/bin"}, Files: nullFiles(), SyncAfterExec: c.Runner == "container-sa", SyncFunc: syncFunc}
 			s := sess
 			run = func() opResult { return classify(s.env.Execve(ctx, p)) }
 		}
@@ -161,7 +178,7 @@ func c12TreeMain(args []string) error {
 				time.Sleep(2 * time.Millisecond)
 			}
 		}
-		if !c.RootFirst {
+		if c.End == "cancel" {
 			cancel()
 		}
 		var r opResult
